@@ -388,9 +388,9 @@ func (t *Transport) Do(req *http.Request) (*http.Response, error) {
 		return nil, urlErr(ctx.Err())
 	}
 	t.gate("T.Do.head")
-	if err := ctx.Err(); err != nil {
-		return nil, urlErr(err)
-	}
+	// The response headers won the race: like net/http, Do hands the response
+	// over even if the context is cancelled at this very moment (later body
+	// reads fail with the context's error).
 	c.mu.Lock()
 	status := c.status
 	hdr := canonicalClone(withoutTrailerKeys(c.ex.RespHeader))
